@@ -26,7 +26,7 @@ Ev == Rec[l]
 \* (IF, not \/: inside an action TLC would explore both disjuncts)
 Chk(cond, why) == IF cond THEN TRUE ELSE ~PrintT(<<"WHY", l, why>>)
 
-NoIndex == [ok |-> FALSE, st |-> [N |-> 0, T |-> 0, n |-> <<>>], alive |-> {}]
+NoIndex == [ok |-> FALSE, st |-> [N |-> 0, T |-> 0, n |-> <<>>], alive |-> {}, segs |-> {}]
 NoCase == [docs |-> <<>>, cuts |-> <<>>, dels |-> {}, vocab |-> {}, fn |-> <<>>]
 
 TTable ==
@@ -46,20 +46,41 @@ TReset ==
   /\ SeqToSet(Ev.dels) \subseteq DOMAIN Ev.docs
   /\ cs' = [docs |-> Ev.docs, cuts |-> Ev.cuts, dels |-> SeqToSet(Ev.dels), vocab |-> SeqToSet(Ev.vocab),
             fn |-> [i \in DOMAIN Ev.docs |-> NormId(tab, DocLen(Ev.docs[i]))]]
-  /\ ix' = [multi |-> NoIndex, single |-> NoIndex]
+  /\ ix' = [multi |-> NoIndex, single |-> NoIndex, merged |-> NoIndex]
   /\ UNCHANGED tab
 
 SegDocs(s) == [i \in DOMAIN s.docs |-> cs.docs[s.docs[i]]]
 
-SegOk(s) ==
-  LET sd == SegDocs(s) IN
+SegCommonOk(s, sd) ==
   /\ Chk(s.max_doc = Len(s.docs), "segment: max_doc")
-  /\ Chk(SeqToSet(s.dead) = SeqToSet(s.docs) \cap cs.dels /\ Len(s.dead) = Cardinality(SeqToSet(s.dead)), "segment: deleted documents")
-  /\ Chk(s.num_docs = s.max_doc - Len(s.dead), "segment: num_docs")
-  /\ Chk(s.T = SegT(sd), "segment: total_num_tokens")
   /\ Chk(\A w \in cs.vocab : s.df[w] = SegDf(sd, w), "segment: doc_freq")
   /\ Chk(\A i \in DOMAIN s.docs : s.fnids[i] = cs.fn[s.docs[i]], "segment: fieldnorm id is the largest table entry <= length")
   /\ Chk(\A i \in DOMAIN s.docs : s.fns[i] = tab[s.fnids[i] + 1], "segment: fieldnorm = table[id]")
+
+\* a segment written by the indexer
+SegOk(s) ==
+  LET sd == SegDocs(s) IN
+  /\ SegCommonOk(s, sd)
+  /\ Chk(SeqToSet(s.dead) = SeqToSet(s.docs) \cap cs.dels /\ Len(s.dead) = Cardinality(SeqToSet(s.dead)), "segment: deleted documents")
+  /\ Chk(s.num_docs = s.max_doc - Len(s.dead), "segment: num_docs")
+  /\ Chk(s.T = SegT(sd), "segment: total_num_tokens")
+
+\* a segment produced by merging the segments srcs (sequences of document ids, deleted ones included):
+\* the living documents of the sources in order, deletes purged, doc_freq exact, total_num_tokens
+\* exact when no source had deletes and within the documented estimate otherwise (Bm25Struct)
+AliveIds(src) == SelectSeq(src, LAMBDA d : d \notin cs.dels)
+RECURSIVE Concat(_)
+Concat(ss) == IF ss = <<>> THEN <<>> ELSE Head(ss) \o Concat(Tail(ss))
+SrcEntries(src) == [i \in DOMAIN src |-> [doc |-> cs.docs[src[i]], alive |-> src[i] \notin cs.dels]]
+MergedSegOk(s, srcs) ==
+  LET sd == SegDocs(s)
+      entries == [k \in DOMAIN srcs |-> SrcEntries(srcs[k])]
+  IN  /\ Chk(s.docs = Concat([k \in DOMAIN srcs |-> AliveIds(srcs[k])]), "merge: the merged segment is not the living documents of its sources")
+      /\ SegCommonOk(s, sd)
+      /\ Chk(s.dead = <<>> /\ s.num_docs = s.max_doc, "merge: deleted documents were not purged")
+      /\ IF \A k \in DOMAIN entries : ~HasDeletes(entries[k])
+            THEN Chk(s.T = SegT(sd), "merge: total_num_tokens of the merged segment is not the exact token count (no deletes)")
+          ELSE Chk(MergedTLower(tab, entries) <= s.T /\ s.T <= MergedTUpper(entries), "merge: total_num_tokens outside the documented estimate (deletes)")
 
 \* The segments of an index partition the corpus into runs of consecutive documents (the cuts of
 \* the case say where the harness committed; the writer may flush more often, which the property
@@ -78,7 +99,29 @@ TIndex ==
          /\ ix' = [ix EXCEPT ![Ev.ix] =
                      [ok |-> TRUE,
                       st |-> Stats([k \in DOMAIN Ev.segs |-> SegDocs(Ev.segs[k])], cs.vocab),
-                      alive |-> present \ cs.dels]]
+                      alive |-> present \ cs.dels,
+                      segs |-> {Ev.segs[k].docs : k \in DOMAIN Ev.segs}]]
+  /\ UNCHANGED <<tab, cs>>
+
+\* the many-segment index after IndexWriter::merge of the segments Ev.srcs: one new segment, the
+\* other segments untouched; the searcher statistics are the sums over what is there now
+TMerged ==
+  /\ Ev.ev = "index" /\ Ev.ix = "merged" /\ ix.multi.ok
+  /\ LET srcset == SeqToSet(Ev.srcs)
+         mk == {k \in DOMAIN Ev.segs : "merged" \in DOMAIN Ev.segs[k]}
+         rest == {Ev.segs[k].docs : k \in (DOMAIN Ev.segs) \ mk}
+         present == UNION {SeqToSet(Ev.segs[k].docs) : k \in DOMAIN Ev.segs}
+     IN  /\ Chk(Ev.srcs # <<>> /\ srcset \subseteq ix.multi.segs /\ Cardinality(srcset) = Len(Ev.srcs), "merge: the sources are not segments of the many-segment index")
+         /\ Chk(Cardinality(mk) = 1, "merge: not exactly one merged segment")
+         /\ Chk(rest = ix.multi.segs \ srcset /\ Cardinality(rest) = Len(Ev.segs) - 1, "merge: the segments that were not merged changed")
+         /\ \A k \in DOMAIN Ev.segs : IF k \in mk THEN MergedSegOk(Ev.segs[k], Ev.srcs) ELSE SegOk(Ev.segs[k])
+         /\ Chk(present \ cs.dels = ix.multi.alive, "merge: the living documents changed")
+         /\ ix' = [ix EXCEPT !.merged =
+                     [ok |-> TRUE,
+                      st |-> [Stats([k \in DOMAIN Ev.segs |-> SegDocs(Ev.segs[k])], cs.vocab)
+                                EXCEPT !.T = SumSeq([k \in DOMAIN Ev.segs |-> Ev.segs[k].T])],
+                      alive |-> present \ cs.dels,
+                      segs |-> {}]]
   /\ UNCHANGED <<tab, cs>>
 
 RECURSIVE QueryOk(_)
@@ -104,13 +147,13 @@ HitOk(q, h, st) ==
       /\ Chk("kernel" \in DOMAIN h /\ IsPosFinite(h.kernel) /\ IsPosFinite(h.coll), "hit: scores are positive finite")
       /\ Chk(Agree(h.kernel, h.coll, t), "score: collector differs from BM25 over the searcher statistics")
       /\ Chk("expl_err" \notin DOMAIN h, "explain: error for a matching document")
-      /\ ("expl" \in DOMAIN h =>
+      /\ IF "expl" \notin DOMAIN h THEN TRUE ELSE
             /\ Chk(IsPosFinite(h.expl), "explain: value is positive finite")
             /\ IF Leaves(t) = 1 /\ ~Boosted(t)
                  THEN Chk(SameBits(h.expl, h.coll), "explain: differs from score (single un-boosted clause)")
                ELSE IF Leaves(t) = 1 /\ StrictBoostedExplain
                  THEN Chk(SameBits(h.expl, h.coll), "explain: boosted explain differs from score (single boosted clause)")
-               ELSE Chk(Within(h.expl, h.coll, Tol(t)), "explain: differs from score beyond rounding"))
+               ELSE Chk(Within(h.expl, h.coll, Tol(t)), "explain: differs from score beyond rounding")
 
 TopOk(q, t, hits) ==
   /\ Chk(Len(t.res) = Min(t.k, Len(hits)), "topdocs: number of results")
@@ -134,30 +177,48 @@ RunOk(q, r) ==
   /\ \A i \in DOMAIN r.hits : HitOk(q, r.hits[i], st)
   /\ \A j \in DOMAIN r.tops : TopOk(q, r.tops[j], r.hits)
 
-\* no deletes: the score of a document does not depend on the segmentation
-CrossOk(a, b) ==
-  cs.dels = {} =>
-    /\ Chk(Len(a.hits) = Len(b.hits), "segmentation: different matching sets")
+\* No deletes: the score of a document does not depend on the segmentation - many segments, one
+\* segment, or some segments merged.  Same statistics and same per-document integers, so every
+\* path must report the same bits, except that a sum / dis-max over >= 3 matching clauses may be
+\* added up in a segment-dependent order (OrderFree, Bm25Struct).
+Same(a, b, t) == IF OrderFree(t) THEN SameBits(a, b) ELSE Within(a, b, Tol(t))
+CrossOk(a, b, what) ==
+  IF cs.dels # {} THEN TRUE ELSE
+    /\ Chk(Len(a.hits) = Len(b.hits), what \o ": different matching sets")
     /\ \A i \in DOMAIN a.hits :
-         /\ Chk(a.hits[i].doc = b.hits[i].doc, "segmentation: different matching sets")
-         /\ Chk(Agree(a.hits[i].coll, b.hits[i].coll, a.hits[i].term), "segmentation: score depends on the segmentation")
+         /\ Chk(a.hits[i].doc = b.hits[i].doc, what \o ": different matching sets")
+         /\ Chk(Same(a.hits[i].coll, b.hits[i].coll, a.hits[i].term), what \o ": collector score depends on the segmentation")
+         /\ Chk(IF "expl" \in DOMAIN a.hits[i] /\ "expl" \in DOMAIN b.hits[i]
+                  THEN Same(a.hits[i].expl, b.hits[i].expl, a.hits[i].term) ELSE TRUE,
+                what \o ": explain value depends on the segmentation")
+    \* TopDocs with K >= number of matches lists every document in both
+    /\ IF a.tops = <<>> \/ b.tops = <<>> THEN TRUE ELSE
+         LET ta == a.tops[Len(a.tops)]
+             tb == b.tops[Len(b.tops)]
+         IN  Chk(\A x \in SeqToSet(ta.res) : \A y \in SeqToSet(tb.res) :
+                   x.doc = y.doc => Same(x.s, y.s, a.hits[x.i].term),
+                 what \o ": TopDocs score depends on the segmentation")
 
 TQuery ==
   /\ Ev.ev = "query"
   /\ Chk(QueryOk(Ev.q), "query: malformed")
-  /\ Len(Ev.runs) = 2 /\ Ev.runs[1].ix = "multi" /\ Ev.runs[2].ix = "single"
+  /\ Len(Ev.runs) \in {2, 3} /\ Ev.runs[1].ix = "multi" /\ Ev.runs[2].ix = "single"
   /\ RunOk(Ev.q, Ev.runs[1])
   /\ RunOk(Ev.q, Ev.runs[2])
-  /\ CrossOk(Ev.runs[1], Ev.runs[2])
+  /\ CrossOk(Ev.runs[1], Ev.runs[2], "segmentation")
+  /\ IF Len(Ev.runs) = 2 THEN TRUE ELSE
+       /\ Ev.runs[3].ix = "merged"
+       /\ RunOk(Ev.q, Ev.runs[3])
+       /\ CrossOk(Ev.runs[1], Ev.runs[3], "merge")
   /\ UNCHANGED <<tab, cs, ix>>
 
 \* "panic" / "error" events have no action: a panic of the code under test is never accepted
 TNext ==
   /\ l <= Len(Rec) /\ l' = l + 1
-  /\ \/ TTable \/ TReset \/ TIndex \/ TQuery
+  /\ \/ TTable \/ TReset \/ TIndex \/ TMerged \/ TQuery
   /\ UNCHANGED vars
 
-TInit == /\ l = 1 /\ tab = <<>> /\ cs = NoCase /\ ix = [multi |-> NoIndex, single |-> NoIndex]
+TInit == /\ l = 1 /\ tab = <<>> /\ cs = NoCase /\ ix = [multi |-> NoIndex, single |-> NoIndex, merged |-> NoIndex]
          /\ segs = <<>> /\ added = <<>> /\ deleted = FALSE
 TSpec == TInit /\ [][TNext]_<<tvars, vars>>
 
